@@ -126,10 +126,9 @@ def noFailedUpdate (c : VCfg) : VState → List VOp → Bool
 
 The class's default connection is database 0; a master made with `Master(connection=conn, …)` (a
 second database, or a transaction — its own view until commit) lives in database `d`.  Versions are
-written through `instance._connection` and `obj.versions` reads through `obj._connection`, so every
-database has its own masters and versions.  **`Version.restore()` does not**: it looks the master up
-with `masterClass.get(self.masterID)`, i.e. on the default connection (known finding
-`C20:restore-ignores-explicit-connection`); the model mirrors that. -/
+written through `instance._connection`, `obj.versions` reads through `obj._connection`, and
+`Version.restore()` fetches the master with `masterClass.get(masterID, connection=self._connection)`
+(fix 14bb19e), so every operation touches the database of the instance it is called on only. -/
 
 abbrev DState := Nat → VState
 
@@ -137,30 +136,12 @@ def dinit : DState := fun _ => vinit
 
 def dset (S : DState) (d : Nat) (s : VState) : DState := fun x => if x = d then s else S x
 
-def isRestore : VOp → Bool
-  | .restore _ => true
-  | _ => false
-
 def dstep (c : VCfg) (S : DState) (d : Nat) (op : VOp) : DState × VOut :=
-  if isRestore op && d != 0 then
-    match op with
-    | .restore vid =>
-      match (S d).versions.find? (fun v => v.vid = vid) with
-      | none => (S, .nohandle)
-      | some v =>
-        -- the master is fetched from (and updated in) the DEFAULT database
-        let q := vUpdateVec c (S 0) v.master (v.vals.map some) false
-        (dset S 0 q.1, q.2)
-    | _ => (S, .nohandle)
-  else
-    let q := vstep c (S d) op
-    (dset S d q.1, q.2)
+  let q := vstep c (S d) op
+  (dset S d q.1, q.2)
 
 def drun (c : VCfg) : DState → List (Nat × VOp) → DState
   | S, [] => S
   | S, (d, op) :: ops => drun c (dstep c S d op).1 ops
-
-/-- every restore of the history is on the default database (decidable) -/
-def restoresLocal (ops : List (Nat × VOp)) : Bool := ops.all (fun p => !(isRestore p.2 && p.1 != 0))
 
 end SqlObjVerif.Version
